@@ -38,12 +38,12 @@ def handle (j : Json) : List (String × Json) :=
     if jhas ex k then [obsOf kind g dflt (jobj ex k)] else []
   -- unprefixed names: the module the node is used in for copies of a grouping, the module of the text otherwise
   let nodes : List (String × List (Option String)) :=
-    [("bl", get "b.must" "must" .expr "urn:m" ++ get "b.when" "when/false" .expr "urn:m" ++ get "m.useswhen" "when/false" .expr "urn:m"),
+    [("bl", get "b.must" "must" .expr "urn:m" ++ get "b.must2" "must" .expr "urn:m" ++ get "m.refmust" "must" .expr "urn:m" ++ get "b.when" "when/false" .expr "urn:m" ++ get "m.useswhen" "when/false" .expr "urn:m"),
      ("br", get "b.path" "path" .leafref "urn:m" ++ get "m.useswhen" "when/false" .expr "urn:m"),
-     ("ml", get "m.must" "must" .expr "urn:m"),
+     ("ml", get "m.must" "must" .expr "urn:m" ++ get "m.must2" "must" .expr "urn:m"),
      ("mt", get "b.tpath" "path" .leafref "urn:b"),
      ("mr", get "m.path" "path" .leafref "urn:m"),
-     ("al", get "a2.must" "must" .expr "urn:a2" ++ get "a2.when" "when/false" .expr "urn:a2" ++ get "a2.augwhen" "when/true" .expr "urn:a2")]
+     ("al", get "a2.must" "must" .expr "urn:a2" ++ get "a2.must2" "must" .expr "urn:a2" ++ get "a2.when" "when/false" .expr "urn:a2" ++ get "a2.augwhen" "when/true" .expr "urn:a2")]
   let out :=
     if nodes.any (fun (_, os) => os.any (·.isNone)) then "err names-expression+statement"
     else "ok\n" ++ "\n".intercalate (nodes.map fun (n, os) => n ++ ":" ++ ",".intercalate (sortStrs (os.filterMap id)))
